@@ -257,12 +257,15 @@ where
     let mut accum = Probability::zero();
 
     for probability in probabilities {
+        // Borrow only once: `Borrow` is a safe trait, so two calls may return different values,
+        // and callers (e.g., the lookup models) rely on `operation` seeing the validated value.
+        let probability = *probability.borrow();
         let old_accum = accum;
-        accum = accum.wrapping_add(probability.borrow());
+        accum = accum.wrapping_add(&probability);
         laps_or_zeros += (accum <= old_accum) as usize;
         num_explicit_probabilities += 1;
         let symbol = symbols.next().ok_or(())?;
-        operation(symbol, old_accum, *probability.borrow())?;
+        operation(symbol, old_accum, probability)?;
     }
 
     let total = wrapping_pow2::<Probability>(PRECISION);
